@@ -62,6 +62,7 @@ API_STEPS = [
     "kernels_on_edge_values",
     "gaussian_constructors",
     "linear_algebra_on_edge_matrices",
+    "ops_sweep",
 ]
 
 
@@ -478,6 +479,38 @@ def api_step(name, ctx, env_values):
             except Exception:  # noqa
                 pass
         return out
+    if name == "ops_sweep":
+        # every op of funsor.ops, by introspection, applied to caller-held arrays (raw and wrapped in
+        # Tensors) in the argument shapes its arity allows; whatever raises is skipped: only writes matter
+        from funsor.ops.op import Op
+
+        raws = [ctx.a_ij, ctx.z_ij, ctx.zneg_ij, ctx.prec_m, ctx.sing_m, ctx.c_i, ctx.idx_i, ctx.e_ij2, ctx.l_ij]
+        extra = [(), (0,), (-1,), (0, True), ((3, 2),), ((1, 0),), (0.5,), (0.25, 1.5), (1,), (slice(0, 1),), ("ab->ba",)]
+        out = []
+        seen = set()
+        with np.errstate(all="ignore"):
+            for opname in sorted(dir(ops)):
+                op = getattr(ops, opname)
+                if not isinstance(op, Op) or type(op) in seen or opname in ("randn", "sample"):
+                    continue
+                seen.add(type(op))
+                arity = type(op).arity
+                picks = [ctx.r.choice(raws) for _ in range(3)] + [ctx.a_ij, ctx.prec_m]
+                for x in picks:
+                    others = [ctx.r.choice(raws) for _ in range(max(0, arity - 1))]
+                    for ex in [()] + [ctx.r.choice(extra) for _ in range(2)]:
+                        for wrap in (False, True):
+                            try:
+                                if arity == 1 and opname in ("cat", "stack", "einsum"):
+                                    args = ((f.Tensor(x), f.Tensor(x)) if wrap else (x, x),)
+                                else:
+                                    args = tuple(f.Tensor(v) if wrap else v for v in [x] + others)
+                                r0 = op(*args, *ex)
+                                if isinstance(r0, f.terms.Funsor):
+                                    out.append(r0)
+                            except Exception:  # noqa
+                                pass
+        return out[:40]
     if name == "kernels_on_edge_values":
         z, zn = ctx.T(ctx.z_ij, "ij"), ctx.T(ctx.zneg_ij, "ij")
         out = []
